@@ -6,7 +6,7 @@ Model of `internal/httpcache/round_tripper.go` `cacheResponse` together with the
 storable at all, when does it expire, and which TTL reaches `cache.Set`.  Times are whole seconds; `expires` and
 `date` are absolute.
 
-Fixed behaviour (`fixes/C10-1.patch`): nothing is stored unless the TTL is positive (before, `time.Until(expires)`
+Fixed behaviour (`fixes/C10-1.patch`, `C10-4.patch`, `C10-6.patch`): nothing is stored unless the TTL is positive (before, `time.Until(expires)`
 went to `Set` unguarded: `max-age=0`, an `Expires` in the past and a negative `default_ttl` produced entries that
 the in-memory cache kept forever), and an `Expires` header that is not a date counts as "already expired"
 (RFC 7234 section 5.3) instead of "no expiry information, use `default_ttl`".
@@ -26,17 +26,22 @@ deriving DecidableEq, Repr
 /-- one request/response exchange with the remote endpoint, as far as caching is concerned -/
 structure Exchange where
   method         : Method
+  hasBody        : Bool           -- the request carries a body
   reqAuth        : Bool           -- request carries an `Authorization` header
   reqNoStore     : Bool           -- request `Cache-Control: no-store`
   status         : Nat
   noStore        : Bool
+  noCache        : Bool           -- response `Cache-Control: no-cache`
   isPublic       : Bool
   mustRevalidate : Bool
+  vary           : Bool           -- the response has a `Vary` header
   maxAge         : Option Int     -- `max-age=n` (n ≥ 0; a negative value does not parse and is modelled as `badCC`)
   sMaxAge        : Option Int
   badCC          : Bool           -- the response `Cache-Control` header does not parse
   expires        : ExpiresHdr
-  date           : Option Int
+  date           : Option Int     -- `Date` header (absolute)
+  age            : Option Int     -- `Age` header (seconds)
+  lastModified   : Option Int     -- `Last-Modified` header (absolute)
 deriving DecidableEq, Repr
 
 /-- status codes that are cacheable by default (RFC 7231 section 6.1) -/
@@ -44,20 +49,27 @@ def cacheableStatus (s : Nat) : Bool :=
   s == 200 || s == 203 || s == 204 || s == 206 || s == 300 || s == 301 || s == 404 || s == 405 || s == 410
     || s == 414 || s == 501
 
-def Exchange.hasFreshness (x : Exchange) : Bool :=
-  x.maxAge.isSome || x.expires != .absent
+/-- `isCacheable` of the round tripper: only `GET` / `HEAD` requests without a body are looked up in and stored to
+the cache (the entry is keyed by URL, method and `Authorization` only); everything else goes straight to the
+remote endpoint -/
+def Exchange.viaCache (x : Exchange) : Bool :=
+  (x.method == .get || x.method == .head) && !x.hasBody
 
-/-- `cachecontrol.CachableResponse` returns no reason against storing (private cache) -/
+/-- `cachecontrol` returns no reason against storing (private cache), and the round tripper's own refusals
+(`Vary`, `no-cache`) do not apply -/
 def Exchange.storable (x : Exchange) : Bool :=
-  !x.badCC
-  && x.method != .other
+  x.viaCache
+  && !x.badCC
   && !x.reqNoStore
-  && (x.method != .post || x.hasFreshness)
   && (!x.reqAuth || x.mustRevalidate || x.isPublic || x.sMaxAge.isSome)
   && !x.noStore
+  && !x.noCache
+  && !x.vary
   && (x.expires != .absent || x.maxAge.isSome || cacheableStatus x.status || x.isPublic)
 
-/-- seconds until the expiration time computed by `cachecontrol` (`none` = it returns the zero time) -/
+/-- seconds until the explicit expiration time of the response (`max-age`, else `Expires − Date`); `none` = the
+response carries no explicit expiration time. The heuristic lifetime `cachecontrol` derives from `Last-Modified` in
+that case is not used (fix C10-4): `lastModified` plays no role. -/
 def Exchange.expiresIn (x : Exchange) (now : Int) : Option Int :=
   match x.maxAge with
   | some a => some a
@@ -66,12 +78,20 @@ def Exchange.expiresIn (x : Exchange) (now : Int) : Option Int :=
     | .valid e => some (e - x.date.getD now)
     | _ => none
 
+/-- age of the response when it is received (RFC 7234 section 4.2.3): the larger of the `Age` header and the time
+since `Date` (fix C10-6) -/
+def Exchange.initialAge (x : Exchange) (now : Int) : Int :=
+  max (max 0 (x.age.getD 0)) (match x.date with
+    | some d => max 0 (now - d)
+    | none => 0)
+
 /-- the TTL that reaches `cache.Set` (the round tripper calls `Set` only if it is positive), `dttl` is the
-`default_ttl` of the endpoint's `http_cache` settings -/
+`default_ttl` of the endpoint's `http_cache` settings: the only lifetime a response without explicit expiration
+time can get; an `Expires` value that is not a date means "already expired" -/
 def httpTTL (dttl : Int) (now : Int) (x : Exchange) : Int :=
   if !x.storable then 0 else
   match x.expiresIn now with
-  | some l => l
-  | none => if x.expires = .invalid then 0 else if 0 < dttl then dttl else 0
+  | some l => l - x.initialAge now
+  | none => if x.expires = .invalid then 0 else if 0 < dttl then dttl - x.initialAge now else 0
 
 end Heimdall.Validity
